@@ -4,6 +4,7 @@ C10 — a swap that succeeds honours max_spread and belief_price (function level
 `Halo.Spec`; `o`, `r`, `s` are the decimals-normalised offer, return and spread.
 -/
 import Halo.Proofs.C10
+import Halo.Proofs.C10M
 
 namespace Halo.Props.C10
 open Halo
@@ -61,6 +62,16 @@ theorem guard_needs_norm {belief ms : Option Nat} {offer ret spread od rd : Nat}
     (h : assertMaxSpread belief ms offer ret spread od rd = .error .guard) :
     ∃ t, normSpread offer ret spread od rd = .ok t :=
   Halo.C10.guard_needs_norm h
+
+/-- "honours max_spread" is monotone in the limit: a swap accepted under `max_spread = ms` is accepted
+under every larger limit, with or without a belief price -/
+theorem spread_mono_limit {belief : Option Nat} {ms ms' offer ret spread od rd : Nat}
+    (h : assertMaxSpread belief (some ms) offer ret spread od rd = .ok ()) (hm : ms ≤ ms') :
+    assertMaxSpread belief (some ms') offer ret spread od rd = .ok () :=
+  Halo.C10.spread_mono_limit h hm
+
+/-- the converse fails: the swap rejected at 1% passes at 2% -/
+example : assertMaxSpread (some E) (some (E / 50)) 1000 989 0 6 6 = .ok () := by decide
 
 example : assertMaxSpread (some E) (some (E / 100)) 1000 990 0 6 6 = .ok () := by decide
 example : assertMaxSpread (some E) (some (E / 100)) 1000 989 0 6 6 = .error .guard := by decide
